@@ -17,7 +17,7 @@ From Coq Require Import List NArith ZArith Bool.
 From SWH.lib Require Import Bytes.
 From SWH Require Import Generated.
 From SWH.model Require Import Codec.
-From SWH.proofs Require Import CodecProofs CodecRoundtrip CodecLegacy.
+From SWH.proofs Require Import CodecProofs CodecRoundtrip CodecLegacy CodecConstruct.
 From SWH.proofs Require CodecExamples.
 Import ListNotations.
 
@@ -212,3 +212,72 @@ Print Assumptions C12_valid_satisfiable.
 Theorem C12_swhid_contract_satisfiable : swhid_contract swhid_str_c swhid_parse_c.
 Proof. exact swhid_contract_c. Qed.
 Print Assumptions C12_swhid_contract_satisfiable.
+
+(* ---------------------------------------------------------------- second round *)
+(* What is assumed of the id oracle where the legacy revision encoding is
+   concerned: [idf_migration_invariant idf] says that the id of a revision does
+   not change when extra headers found in the metadata are moved to
+   extra_headers, i.e. idf reads the EFFECTIVE extra headers only (for the real
+   manifest this is C03_legacy_extra_headers: revision_git_object falls back to
+   metadata["extra_headers"] when extra_headers is empty and reads nothing else
+   of the metadata).  Nothing else is assumed of idf. *)
+
+(* Legacy revision encoding, at the level of DICTIONARIES: for every revision
+   dictionary d whose metadata holds "extra_headers" -> eh, with no (or an
+   empty) top-level extra_headers, and d' = d with eh as top-level
+   extra_headers and the key removed from the metadata: from_dict d and
+   from_dict d' give the same result - the same object with the same id
+   (explicit: kept on both sides; absent: the oracle is asked about the same
+   effective fields), or the same error.  eh is a sequence of pairs of byte
+   strings (tuplify succeeds and the result has the declared type); any other
+   key of d may hold anything. *)
+Theorem C12_legacy_extra_headers_dict : forall idf, idf_migration_invariant idf ->
+  forall d md eh eh',
+  dget k_metadata d = Some (VDict md) ->
+  (dget k_extra_headers d = None \/
+   exists x, dget k_extra_headers d = Some x /\ tuplify_extra_headers x = Ok (VTuple [])) ->
+  dget k_extra_headers md = Some eh -> tuplify_extra_headers eh = Ok eh' -> has_type hdr_ty eh' = true ->
+  fst (fd_Revision idf (VDict d)) =
+  fst (fd_Revision idf (VDict (dset k_extra_headers eh (dset k_metadata (VDict (ddel k_extra_headers md)) d)))).
+Proof. exact legacy_extra_headers_dict. Qed.
+Print Assumptions C12_legacy_extra_headers_dict.
+
+(* For EVERY class and EVERY argument list: what the constructor returns has
+   the attribute names of its schema and is a fixed point of the constructor
+   (converters idempotent, validators still pass, post-init changes nothing). *)
+Theorem C12_constructor_fixed : forall idf, idf_migration_invariant idf ->
+  forall c kw fs, construct idf c kw = Ok (VObj c fs) ->
+  map fst fs = names c /\ construct idf c (as_kwargs fs) = Ok (VObj c fs).
+Proof. exact construct_fixed. Qed.
+Print Assumptions C12_constructor_fixed.
+
+(* Every object returned by the constructor is well formed, provided the
+   arguments (once bound and converted) have their declared types IN DEPTH
+   ([args_typed]: nested objects well formed, metadata values plain, the
+   unvalidated raw_manifest a byte string or None, get_data None) - the one
+   thing no validator checks. *)
+Theorem C12_constructor_output_wf : forall idf, idf_migration_invariant idf ->
+  forall c kw fs, args_typed idf c kw -> construct idf c kw = Ok (VObj c fs) -> wf idf (VObj c fs).
+Proof. exact constructor_output_wf_args. Qed.
+Print Assumptions C12_constructor_output_wf.
+
+(* ... and that proviso cannot be dropped: a constructor output that is not
+   well formed (the Directory with a Person as raw_manifest). *)
+Theorem C12_constructor_output_wf_needs_typing :
+  exists c kw fs, construct idf_c c kw = Ok (VObj c fs) /\ ~ wf idf_c (VObj c fs).
+Proof. exact constructor_output_wf_needs_typing. Qed.
+Print Assumptions C12_constructor_output_wf_needs_typing.
+
+(* The round trip restated for constructor outputs, without wf. *)
+Theorem C12_roundtrip_constructed : forall idf swhid_str swhid_parse dateparse,
+  swhid_contract swhid_str swhid_parse -> idf_migration_invariant idf ->
+  forall c kw fs, args_typed idf c kw -> construct idf c kw = Ok (VObj c fs) ->
+  from_dict idf swhid_str swhid_parse dateparse c (to_dict swhid_str (VObj c fs)) =
+  (Ok (VObj c fs), to_dict swhid_str (VObj c fs)).
+Proof. exact roundtrip_constructed_args. Qed.
+Print Assumptions C12_roundtrip_constructed.
+
+(* Non-vacuity of the hypothesis on the id oracle. *)
+Theorem C12_idf_invariant_satisfiable : idf_migration_invariant idf_c.
+Proof. exact idf_c_invariant. Qed.
+Print Assumptions C12_idf_invariant_satisfiable.
